@@ -737,7 +737,7 @@ def run_s15(chk, repo):
     rn, ct = (e.id for e in split[0].ast.targets[0].elts)
     n = 0
     for nd in cfg.nodes.values():
-        if nd.ast is None or nd.kind != 'stmt':
+        if nd.ast is None or nd.kind not in ('stmt', 'return'):
             continue
         for c in [c for c in ast.walk(nd.ast) if isinstance(c, ast.Call)]:
             d = dotted(c.func) or ''
